@@ -50,6 +50,7 @@ def parseOp : List String → Option POp
   | ["mut", c, spec] => do let c ← c.toNat?; let k ← parseSpec c spec; pure (.mutate k)
   | ["newr", c, spec] => do let c ← c.toNat?; let k ← parseSpec c spec; pure (.new k)
   | ["rl", c, spec] => do let c ← c.toNat?; let k ← parseSpec c spec; pure (.reload k)
+  | ["rlb", c, spec] => do let c ← c.toNat?; let k ← parseSpec c spec; pure (.reload k)      -- (with a yield point inside the write-locked section)
   | ["sgd", c] => c.toNat?.map .sgd
   | _ => none
 
